@@ -14,12 +14,22 @@ PROP = "C15"
 RULE = ("case = (request target: origin-form from bytes 0x21-0xff with %XX / malformed escapes / ;params / several "
         "? / #, absolute-form, //-prefixed, asterisk; a class with TAB/CR/LF/C0 bytes in the target; method; version; "
         "0-8 header lines with repeated names, case variants, latin-1 and empty values; SCRIPT_NAME from process "
-        "environment or trusted header; worker loop); non-trivial = target has an escape, raw high byte, ';', '?', '#' "
+        "environment or trusted header; worker loop; versions outside 1.x and unconventional methods under the permit_* / "
+        "casefold switches; connections of 2-3 such requests from a (trusted or not) front-end that sends SCRIPT_NAME / "
+        "PATH_INFO fields, in either order, with each); non-trivial = target has an escape, raw high byte, ';', '?', '#' "
         "or non-origin form, or a header name repeats; distinct = sha1(case)")
 
 SAFE = b"abcXYZ019-._~!$&'()*+,;=:@/"
 TRUSTED = ("127.0.0.1", 40000)
 UNTRUSTED = ("10.7.7.7", 40000)
+HEXDIGITS = b"0123456789abcdefABCDEF"
+HEXLETTERS = b"abcdefABCDEF"
+# rarely used parser switches: what they admit has to be reported as faithfully as everything else
+CFGX = {
+    None: {},
+    "unconv": {"permit_unconventional_http_version": True, "permit_unconventional_http_method": True},
+    "casefold": {"casefold_http_method": True, "permit_unconventional_http_method": True},      # documented: method upper-cased
+}
 
 
 def gen_segment(rng, ctl):
@@ -29,8 +39,16 @@ def gen_segment(rng, ctl):
         if k < 0.4:
             out.append(rng.choice(SAFE))
         elif k < 0.6:
-            out += b"%%%02x" % rng.randrange(256) if rng.random() < 0.5 else b"%%%02X" % rng.choice(
-                [0x00, 0x0a, 0x0d, 0x20, 0x23, 0x25, 0x2f, 0x3f, 0x41, 0x7f, 0x80, 0xc3, 0xa9, 0xe9, 0xff])
+            r = rng.random()
+            if r < 0.35:
+                out += b"%%%02x" % rng.randrange(256)
+            elif r < 0.7:
+                out += b"%%%02X" % rng.choice([0x00, 0x0a, 0x0d, 0x20, 0x23, 0x25, 0x2f, 0x3f, 0x41, 0x7f, 0x80, 0xc3, 0xa9, 0xe9, 0xff])
+            elif r < 0.85:
+                # the two hex digits drawn one by one: any mix of letter cases (%cF, %aB, %Fe ...)
+                out += bytes([0x25, rng.choice(HEXDIGITS), rng.choice(HEXDIGITS)])
+            else:
+                out += bytes([0x25, rng.choice(HEXLETTERS), rng.choice(HEXLETTERS)])
         elif k < 0.7:
             out += rng.choice([b"%", b"%4", b"%zz", b"%%41", b"%g1", b"%1g"])
         elif k < 0.85:
@@ -91,7 +109,8 @@ def gen_headers(rng):
     return hdrs
 
 
-def make_case(rng):
+def make_case(rng, conn=None):
+    """conn: None, or {"kind", "header_map", "trusted"} when the request is one of several on a keep-alive connection."""
     ctl = rng.random() < 0.12
     target, method = gen_target(rng, ctl)
     version = rng.choice(["1.1", "1.1", "1.0"])
@@ -100,6 +119,8 @@ def make_case(rng):
     script_env = ""
     script_hdr = None
     k = rng.random()
+    if conn is not None:
+        k = rng.choice([0.1, 0.1, 0.1, 0.1, 0.19, 0.9])      # mostly: the front-end sends SCRIPT_NAME = a prefix of the path
     if k < 0.15 and target.startswith(b"/"):
         # SCRIPT_NAME = some raw prefix of the path
         path = target.split(b"?")[0].split(b"#")[0]
@@ -135,12 +156,45 @@ def make_case(rng):
         hdrs.insert(rng.randint(0, len(hdrs)), [b"Expect", rng.choice([b"100-continue", b"100-Continue"])])
     # who is talking: a SCRIPT_NAME header counts only from a trusted peer; the same worker serves both kinds of peer
     hdr_from_untrusted = script_hdr is not None and rng.random() < 0.3
-    return {"target": target.hex(), "method": method, "version": version,
+    case = {"target": target.hex(), "method": method, "version": version,
             "headers": [[n.hex(), v.hex()] for n, v in hdrs], "body": None if body is None else body.hex(),
             "script_env": script_env, "script_hdr": None if script_hdr is None else script_hdr.hex(),
             "hdr_from_untrusted": hdr_from_untrusted, "header_map": "dangerous" if rng.random() < 0.2 else "drop",
             "client_gone": rng.random() < 0.08,
             "kind": rng.choice(["sync", "gthread", "async"]), "ctl": ctl}
+    # a second forwarder field (PATH_INFO is in the default forwarder_headers): in front of or behind SCRIPT_NAME
+    r = rng.random()
+    if r < (0.3 if script_hdr is not None else 0.04):
+        case["path_info_hdr"] = {"v": rng.choice([b"/pi", b"/x%20y", b"", b"/caf\xe9", b"/a, b"]).hex(), "before": rng.random() < 0.5}
+        if script_hdr is None:
+            case["hdr_from_untrusted"] = rng.random() < 0.3
+    # rarely used switches
+    r = rng.random()
+    case["cfgx"] = None
+    if conn is not None:
+        case.update(kind=conn["kind"], header_map=conn["header_map"], hdr_from_untrusted=not conn["trusted"], script_env="",
+                    client_gone=False, version="1.1")
+    elif r < 0.1:
+        case["cfgx"] = "unconv"
+        case["version"] = rng.choice(["2.0", "0.9", "3.1", "1.7", "9.9", "0.0", "2.1", "1.1", "1.0"])
+        if target != b"*":
+            case["method"] = rng.choice(["get", "Post", "X#Y", "G", "GET", "A-VERY-LONG-METHOD-NAME-OVER-20", "pUT", "GET"])
+    elif r < 0.14:
+        case["cfgx"] = "casefold"
+        if target != b"*":
+            case["method"] = rng.choice(["get", "Post", "x#y", "pUT", "GET", "m-search"])
+    elif r < 0.18:
+        case["version"] = rng.choice(["1.2", "1.9", "1.5"])          # accepted without any switch
+    return case
+
+
+def make_conn_case(rng):
+    """2-3 requests on one keep-alive connection (one for the sync loop) from one peer: a front-end that is trusted, or is not,
+    for as long as the connection lasts."""
+    kind = rng.choice(["gthread", "async", "gthread", "async", "sync"])
+    conn = {"kind": kind, "header_map": "dangerous" if rng.random() < 0.12 else "drop", "trusted": rng.random() < 0.8}
+    n = 1 if kind == "sync" else rng.choice([2, 3, 3])
+    return dict(conn, reqs=[make_case(rng, conn) for _ in range(n)])
 
 
 def render(case):
@@ -148,14 +202,24 @@ def render(case):
     lines = [case["method"].encode() + b" " + target + b" HTTP/" + case["version"].encode()]
     hdrs = [(bytes.fromhex(n), bytes.fromhex(v)) for n, v in case["headers"]]
     wire = list(hdrs)
+    pih = case.get("path_info_hdr")
+    if pih and pih["before"]:
+        wire.append((b"PATH_INFO", bytes.fromhex(pih["v"])))
     if case["script_hdr"] is not None:
         wire.append((b"SCRIPT_NAME", bytes.fromhex(case["script_hdr"])))
+    if pih and not pih["before"]:
+        wire.append((b"PATH_INFO", bytes.fromhex(pih["v"])))
     body = None if case["body"] is None else bytes.fromhex(case["body"])
     if body is not None:
         wire.append((b"Content-Length", b"%d" % len(body)))
     for n, v in wire:
         lines.append(n + b": " + v)
     return b"\r\n".join(lines) + b"\r\n\r\n" + (body or b""), wire
+
+
+def is_trusted(case):
+    """Is the peer of this request's connection on forwarded_allow_ips?"""
+    return (case["script_hdr"] is not None or bool(case.get("path_info_hdr"))) and not case.get("hdr_from_untrusted")
 
 
 def judge(case, environ):
@@ -169,7 +233,11 @@ def judge(case, environ):
     if hdr_script is not None and (not case.get("hdr_from_untrusted") or hm == "dangerous"):
         # (with header_map = dangerous every peer's underscore names go through, also this one: documented as unsafe)
         script = bytes.fromhex(hdr_script).decode("latin-1")
-    exp = ref_cgi.expected(case["method"].encode(), target, (1, int(case["version"][2])), lines, script, header_map=hm)
+    # the PATH_INFO field of a trusted front-end is a configured forwarder header: mapped (to HTTP_PATH_INFO) like any other field
+    exp = ref_cgi.expected(case["method"].encode(), target, (int(case["version"][0]), int(case["version"][2])), lines, script,
+                           header_map=hm, forwarder_names=() if case.get("hdr_from_untrusted") or not is_trusted(case) else ("PATH_INFO",))
+    if case.get("cfgx") == "casefold":
+        exp["REQUEST_METHOD"] = exp["REQUEST_METHOD"].upper()       # what the switch is documented to do
     nj = exp["_not_judged"]
     out = []
     if exp.get("_script_mismatch_path") is not None:
@@ -227,11 +295,14 @@ def classify(key, case, got, want):
 
 
 def run_case(run, e2, harnesses, case):
+    if "reqs" in case:
+        return run_conn(run, e2, harnesses, case)
     kind = case["kind"]
     hm = case.get("header_map", "drop")
-    h = harnesses.get((kind, hm))
+    cfgx = case.get("cfgx")
+    h = harnesses.get((kind, hm, cfgx))
     if h is None:
-        h = harnesses[(kind, hm)] = e2.Harness(kind, {"keepalive": 0, "header_map": hm})
+        h = harnesses[(kind, hm, cfgx)] = e2.Harness(kind, dict(CFGX[cfgx], keepalive=0, header_map=hm))
     app = e2.AppProgram({"status": "200 OK", "mode": "list", "chunks": [], "cl": "exact", "read_input": "none"})
     script, _ = render(case)
     if case["script_env"]:
@@ -239,7 +310,7 @@ def run_case(run, e2, harnesses, case):
     else:
         os.environ.pop("SCRIPT_NAME", None)
     try:
-        out = h.connection(script, app, peer=TRUSTED if case["script_hdr"] is not None and not case.get("hdr_from_untrusted") else UNTRUSTED,
+        out = h.connection(script, app, peer=TRUSTED if is_trusted(case) else UNTRUSTED,
                            mode="close" if case.get("client_gone") else "halfclose")
         if case.get("client_gone"):
             # the client sent everything and left: whatever the server could not write any more, what it hands to the
@@ -257,12 +328,40 @@ def run_case(run, e2, harnesses, case):
         return verdicts, out
     run.count("accepted")
     diffs, exp = judge(case, app.calls[0]["environ"])
+    count_reach(run, case, exp)
+    for key, got, want in diffs:
+        verdicts.append((classify(key, case, got, want), "%s = %r, the request says %r | target=%s" % (
+            key, got, want, hexs(bytes.fromhex(case["target"])))))
+    return verdicts, out
+
+
+MIXED_ESCAPE = __import__("re").compile(rb"%(?:[a-f][A-F]|[A-F][a-f])")
+
+
+def count_reach(run, case, exp):
+    hm = case.get("header_map", "drop")
     run.count("form/" + exp["_form"])
+    path = bytes.fromhex(case["target"]).split(b"?")[0].split(b"#")[0]
+    if MIXED_ESCAPE.search(path):
+        run.count("path_escape_with_mixed_case_hex_letters")
+    if case.get("cfgx"):
+        run.count("switch/" + case["cfgx"])
+    if not case["version"].startswith("1."):
+        run.count("version_outside_1x_accepted")
+    elif case["version"] not in ("1.0", "1.1"):
+        run.count("version_1x_other_than_1.0_1.1_accepted")
+    if case["method"] != case["method"].upper() or "#" in case["method"] or not 3 <= len(case["method"]) <= 20:
+        run.count("unconventional_method_accepted")
+    pih = case.get("path_info_hdr")
+    if pih and is_trusted(case):
+        run.count("forwarder_path_info_field_mapped")
+        if pih["before"] and case["script_hdr"] is not None:
+            run.count("forwarder_fields_in_reverse_order")
     if case["script_env"] or case["script_hdr"] is not None:
         run.count("with_script_name")
     if any(len(v) > 1 for v in exp["_http"].values()):
         run.count("repeated_header_joined")
-    if case.get("hdr_from_untrusted"):
+    if case.get("hdr_from_untrusted") and case["script_hdr"] is not None:
         run.count("script_name_header_from_untrusted_peer")
     if exp.get("_script_mismatch_path") is not None:
         run.count("served_although_path_outside_script_name")
@@ -272,9 +371,41 @@ def run_case(run, e2, harnesses, case):
         raw = [bytes.fromhex(n).upper() for n, _ in case["headers"]]
         if any(names.count(x) > 1 and len(set(r for r in raw if r.replace(b"_", b"-") == x)) > 1 for x in names):
             run.count("two_spellings_one_variable")
-    for key, got, want in diffs:
-        verdicts.append((classify(key, case, got, want), "%s = %r, the request says %r | target=%s" % (
-            key, got, want, hexs(bytes.fromhex(case["target"])))))
+
+
+def render_conn(case):
+    return b"".join(render(r)[0] for r in case["reqs"])
+
+
+def run_conn(run, e2, harnesses, case):
+    """Several requests on one keep-alive connection: every one that reaches the application is judged like a single request."""
+    kind, hm = case["kind"], case["header_map"]
+    h = harnesses.get((kind, hm, "keep-alive"))
+    if h is None:
+        h = harnesses[(kind, hm, "keep-alive")] = e2.Harness(kind, {"keepalive": 2, "header_map": hm})
+    app = e2.AppProgram({"status": "200 OK", "mode": "list", "chunks": [], "cl": "exact", "read_input": "none"})
+    os.environ.pop("SCRIPT_NAME", None)
+    out = h.connection(render_conn(case), app, peer=TRUSTED if case["trusted"] else UNTRUSTED)
+    verdicts = []
+    run.count("keepalive_connections")
+    # a refused request ends the connection: the i-th application call belongs to the i-th request
+    for i, call in enumerate(app.calls[:len(case["reqs"])]):
+        sub = case["reqs"][i]
+        run.count("accepted")
+        diffs, exp = judge(sub, call["environ"])
+        count_reach(run, sub, exp)
+        if i:
+            run.count("keepalive_later_request_accepted")
+            if sub["script_hdr"] is not None and case["trusted"]:
+                run.count("keepalive_later_request_with_forwarder_script_name")
+        for key, got, want in diffs:
+            verdicts.append((classify(key, sub, got, want), "request #%d of a connection (%s front-end): %s = %r, the request says %r | "
+                             "target=%s | connection: %s" % (i, "trusted" if case["trusted"] else "unlisted", key, got, want,
+                                                             hexs(bytes.fromhex(sub["target"])), hexs(render_conn(case)[:600]))))
+    if len(app.calls) > len(case["reqs"]):
+        verdicts.append(("more-app-calls-than-requests", "%d calls for %d requests" % (len(app.calls), len(case["reqs"]))))
+    if not app.calls:
+        run.count("not_accepted")
     return verdicts, out
 
 
@@ -358,14 +489,20 @@ def shard(sh):
         for k in range(sh["n"]):
             if run.enough():
                 break
-            case = make_case(rng)
-            run.case(common.sha12(case), nontrivial=features(case))
+            if k % 8 == 7:
+                case = make_conn_case(rng)
+                run.case(common.sha12(case), nontrivial=any(features(r) for r in case["reqs"]))
+            else:
+                case = make_case(rng)
+                run.case(common.sha12(case), nontrivial=features(case))
             v, out = run_case(run, e2, hs, case)
             for mech, summary in v:
                 run.violation(mech, summary, case)
             if k < 1:
                 run.sample({"request": hexs(render(case)[0][:300]), "loop": case["kind"],
                             "script_env": case["script_env"]})
+            elif k == 7:
+                run.sample({"connection": hexs(render_conn(case)[:500]), "loop": case["kind"], "front_end_trusted": case["trusted"]})
     finally:
         for h in hs.values():
             h.close()
@@ -376,7 +513,11 @@ def main(tier, seed):
     run = Run(PROP, tier, seed, "exploration", RULE)
     run.require("accepted", "form/origin", "form/absolute", "form/asterisk", "with_script_name", "repeated_header_joined",
                 "script_name_header_from_untrusted_peer", "script_name_not_a_prefix_cases", "header_map_dangerous_cases",
-                "two_spellings_one_variable", "client_gone_cases", "live_script_name_checks")
+                "two_spellings_one_variable", "client_gone_cases", "live_script_name_checks",
+                "path_escape_with_mixed_case_hex_letters", "switch/unconv", "switch/casefold", "version_outside_1x_accepted",
+                "version_1x_other_than_1.0_1.1_accepted", "unconventional_method_accepted", "forwarder_path_info_field_mapped",
+                "forwarder_fields_in_reverse_order", "keepalive_connections", "keepalive_later_request_accepted",
+                "keepalive_later_request_with_forwarder_script_name")
     q = tier == "quick"
     shards = [{"n": 1500 if q else 20000, "sub": i, "seed": seed, "tier": tier} for i in range(32 if q else 64)]
     classes = ["sync", "gthread", "gevent", "eventlet"]
@@ -385,6 +526,10 @@ def main(tier, seed):
         "reference mapping = vlib/ref_cgi.py; malformed percent escapes stay literal; fragment (#...) is not part of path or query",
         "not judged: repeated Content-Type, authority-form / relative targets, targets whose raw path does not start with the configured SCRIPT_NAME, "
         "headers dropped by the documented underscore policy",
+        "casefold_http_method (deprecated) is documented to upper-case the method: REQUEST_METHOD is compared with the upper-cased method there; "
+        "permit_unconventional_http_version / _method only widen what is accepted: version and method are reported as sent",
+        "a PATH_INFO field from a trusted front-end is a (default) forwarder header and is mapped like any field, to HTTP_PATH_INFO; from others it falls "
+        "under the underscore policy",
     ]
     common.run_sharded(run, shards, timeout=900 if q else 7200)
     return run.finish()
@@ -409,7 +554,7 @@ def replay(path):
     finally:
         for h in hs.values():
             h.close()
-    print("request:", hexs(render(rec["case"])[0][:400]))
+    print("request:", hexs((render_conn(rec["case"]) if "reqs" in rec["case"] else render(rec["case"])[0])[:600]))
     for mech, s in v:
         print("VIOLATION property=%s replay=%s\n  %s %s" % (PROP, path, mech, s))
     if not v:
